@@ -315,6 +315,8 @@ def fly_impl(case):
         out['total'] = None
         out['geo_exc'] = f'{type(e).__name__}: {e}'
     out['pm'] = (float(pm.maximum_payload), float(pm.empty_mass), float(pm.maximum_mass))
+    out['mass_range'] = (float(min(pm.performance_table.mass)), float(max(pm.performance_table.mass)))
+    out['fl_range'] = (float(min(pm.performance_table.fl)), float(max(pm.performance_table.fl)))
     return out
 
 
@@ -413,6 +415,20 @@ def oracle_trajectory(case, impl):
         if len(j):
             k = int(j[0])
             bad.append((k + 1, f'{name} goes the wrong way between points {k} and {k + 1}: {arr[k]!r} -> {arr[k + 1]!r}'))
+    # every state is inside the envelope of the table: flight levels everywhere, masses where the table has a
+    # mass axis (climb and cruise; the descent rows carry a single mass)
+    if 'mass_range' in impl:
+        mlo, mhi = impl['mass_range']
+        nc0, ncr0, _ = impl['n']
+        j = np.nonzero((mass[:nc0 + ncr0] < mlo) | (mass[:nc0 + ncr0] > mhi))[0]
+        if len(j):
+            bad.append((int(j[0]), f'aircraft mass {mass[j[0]]!r} of point {int(j[0])} is outside the mass range '
+                                   f'[{mlo}, {mhi}] of the performance table'))
+        fl = alt / (100 * FT)
+        flo, fhi = impl['fl_range']
+        j = np.nonzero((fl < flo - 1e-6) | (fl > fhi + 1e-6))[0]
+        if len(j):
+            bad.append((int(j[0]), f'flight level {fl[j[0]]!r} of point {int(j[0])} is outside the table [{flo}, {fhi}]'))
     # first point
     if mass[0] != impl['start_mass'] or fuel[0] != impl['total_fuel']:
         bad.append((0, f"first point ({mass[0]!r},{fuel[0]!r}) is not the reported start ({impl['start_mass']!r},{impl['total_fuel']!r})"))
@@ -541,6 +557,72 @@ def oracle_resample(cols, resample, pick, lam):
     return bad
 
 
+def make_grids(t, rng):
+    """Increasing (or non-decreasing) query grids inside the flown time range, chosen to differ from the stored
+    time axis in every way a resampler might short-cut: same length and end points but other interior times,
+    shifted interior, subsets, supersets, repeated times, only the end points in common."""
+    import numpy as np
+    t = np.array(t, dtype=float)
+    n = len(t)
+    grids = {}
+    if n < 3 or not t[-1] > t[0]:
+        return grids
+    grids['linspace-same-length'] = np.linspace(t[0], t[-1], n)
+    sh = t.copy()
+    for i in range(1, n - 1):
+        sh[i] = t[i] + rng.choice([0.25, 0.5, 0.75]) * (t[i + 1] - t[i])
+    grids['own-interior-shifted'] = sh
+    k = rng.choice([2, 3, 7])
+    sub = t[::k]
+    grids['subset'] = sub if sub[-1] == t[-1] else np.append(sub, t[-1])
+    grids['superset'] = np.sort(np.concatenate([t, (t[:-1] + t[1:]) / 2]))
+    grids['each-time-twice'] = np.repeat(t, 2)
+    m = rng.randint(3, max(3, min(40, n)))
+    inner = np.sort(np.array([t[0] + rng.random() * (t[-1] - t[0]) for _ in range(m)]))
+    grids['end-points-plus-random'] = np.concatenate([[t[0]], inner, [t[-1]]])
+    return grids
+
+
+def oracle_grids(cols, resample, grids):
+    """Every resampled value is the linear interpolation between the two stored points around the query time
+    (the stored value at a stored time; at a time stored twice, one of the two); the resampled trajectory has one
+    point per query time."""
+    import numpy as np
+    t = np.array(cols['flight_time'], dtype=float)
+    n = len(t)
+    bad = []
+    for gname, q in grids.items():
+        try:
+            r = resample(q)
+        except Exception as e:  # noqa: BLE001
+            bad.append((0, f'resampling on the grid {gname} raises {type(e).__name__}: {e}'))
+            continue
+        hi = np.clip(np.searchsorted(t, q, side='right') - 1, 0, n - 1)        # last stored time <= q
+        nxt = np.clip(hi + 1, 0, n - 1)
+        lo = np.searchsorted(t, q, side='left')                                 # first stored time >= q
+        for f in FIELDS:
+            y = np.array(cols[f], dtype=float)
+            got = np.asarray(r[f], dtype=float)
+            if got.shape != q.shape:
+                bad.append((0, f'grid {gname}: {len(got)} values of {f} for {len(q)} query times'))
+                break
+            dt = t[nxt] - t[hi]
+            w = np.where(dt > 0, (q - t[hi]) / np.where(dt > 0, dt, 1.0), 0.0)
+            want = y[hi] * (1 - w) + y[nxt] * w
+            scale = np.maximum(np.maximum(np.abs(y[hi]), np.abs(y[nxt])), 1e-300)
+            ok = np.abs(got - want) <= 1e-9 * scale + 1e-9
+            for j in np.nonzero(~ok)[0]:
+                # a query on a stored time that is stored more than once may return any of those points
+                if t[hi[j]] == q[j] and any(got[j] == y[k] for k in range(int(lo[j]), int(hi[j]) + 1)):
+                    continue
+                bad.append((int(hi[j]), f'grid {gname}: {f} at time {float(q[j])!r} is {float(got[j])!r}, the linear '
+                                        f'interpolation between points {int(hi[j])} and {int(nxt[j])} is {float(want[j])!r}'))
+                break
+            if bad and bad[-1][1].startswith(f'grid {gname}'):
+                break
+    return bad
+
+
 def interp_job(cols, pick, lam):
     """data for the model-vs-np.interp comparison (library semantics on the stored points)"""
     import numpy as np
@@ -590,7 +672,7 @@ def gen_table(rng, long_range=False, ceiling_ft=None):
         return None
     return {'tas': rng.choice([0.85, 1.0, 1.1]), 'rocd': rng.choice([0.7, 1.0, 1.3]),
             'ff': rng.choice([0.6, 1.0, 1.5]), 'mass': rng.choice([0.9, 1.0, 1.2]),
-            'ceiling_ft': ceiling_ft or rng.choice([33000, 37000, 39000, 41000]),
+            'ceiling_ft': ceiling_ft or rng.choice([33000, 37000, 39000, 41000, 41000, 45000, 50000]),
             'payload': rng.choice([15000, 22422, 30000]),
             # a thirstier climb than the cruise-based fuel estimate allows for: negative fuel residuals
             'ff_climb': rng.choice([1.0, 1.0, 3.0, 5.0]),
@@ -668,8 +750,16 @@ def gen_case(rng, f1_fixed):
             'f_clm': fr[0], 'f_crz': fr[1], 'f_des': fr[2], 'iterate': iterate,
             'max_iters': rng.choice([1, 2, 3, 5, 8]) if iterate else 5,
             'reltol': rng.choice([1e-2, 1e-3, 5e-2, 1e-6]) if iterate else 1e-2,
-            'given_mass': rng.choice([60000.0, 66000.0, 70000.0, 75000.0]) if rng.random() < 0.12 else None,
-            'table': gen_table(rng, long_range, ceiling), 'wind': wind}
+            'given_mass': None, 'table': gen_table(rng, long_range, ceiling), 'wind': wind}
+    if rng.random() < 0.16:
+        # a starting mass handed in by the caller: below the lightest table mass, inside, exactly on the heaviest,
+        # just above it and well above it
+        pm = perf_model(case['table'])
+        lo, hi = float(min(pm.performance_table.mass)), float(pm.maximum_mass)
+        case['given_mass'] = rng.choice([0.9 * lo, lo, lo + 0.35 * (hi - lo), lo + 0.7 * (hi - lo), 0.97 * hi, hi,
+                                         hi * (1 + 1e-4), hi * (1 + 1e-4), hi + 1.0, 1.1 * hi])
+        if case['given_mass'] >= hi and rng.random() < 0.7:
+            case['iterate'] = False
     return case
 
 
@@ -770,7 +860,11 @@ def check_flights(chk: Check, cases, f1_fixed: bool, interp_fixed: bool, gfix: b
             viol = oracle_trajectory(case, im)
             if not viol:             # resampling is judged on trajectories that obey the bookkeeping rules
                 pick, lam = pick_queries(im['cols']['flight_time'], chk.rng)
+                grids = make_grids(im['cols']['flight_time'], chk.rng)
                 rviol = oracle_resample(im['cols'], resample_impl(im['traj']), pick, lam)
+                rviol += oracle_grids(im['cols'], resample_impl(im['traj']), grids)
+                for g in grids:
+                    chk.count('resample-grid:' + g)
                 if rviol:
                     # narrow match of FC02a: the stored points resample correctly, and the implementation does
                     # exactly what np.interp does on the capacity-long buffers (nothing else is wrong)
@@ -778,7 +872,9 @@ def check_flights(chk: Check, cases, f1_fixed: bool, interp_fixed: bool, gfix: b
                     qs = [t, [t[i] + l * (t[i + 1] - t[i]) for i, l in zip(pick, lam)], [t[0] - 1.0, t[-1] + 1.0]]
                     im['resample_prefix_ok'] = (
                         not oracle_resample(im['cols'], resample_prefix(im['cols']), pick, lam)
-                        and same_resampling(resample_impl(im['traj']), resample_as_coded(im['traj']), [q for q in qs if len(q)]))
+                        and not oracle_grids(im['cols'], resample_prefix(im['cols']), grids)
+                        and same_resampling(resample_impl(im['traj']), resample_as_coded(im['traj']),
+                                            [q for q in qs if len(q)] + list(grids.values())))
                 interp_jobs.append((case, interp_job(im['cols'], pick, lam)))
         im['rviol'] = rviol
         # the hypotheses of the theorems about the performance oracle, on every recorded answer of this flight
